@@ -59,6 +59,8 @@ def nontrivial(case):
     for l in case.lines:
         if l.startswith("RMSG D "):
             return True
+        if l.startswith("RMSG U "):
+            return True
         if l.startswith("RMSG T "):
             w = l.split()
             # stale / future duty, foreign key, re-labelled role
@@ -100,7 +102,7 @@ def matches_known(finding, case):
             continue
         if l.startswith("RMSG ") and ";" in w:
             k = w.index(";")
-            role = w[5] if w[1] == "T" else w[6]
+            role = w[5] if w[1] in ("T", "U") else w[6]
             last_prev = w[k + 2] if w[k - 1] == "C" else None
             if w[k - 1] == "C" and len(w) > k + 4 and w[k + 3] == "1" and role in slot:
                 h = int(w[k + 4])
@@ -123,11 +125,14 @@ LEVEL_TEXT = ("Machine-checked theorems about a Gallina model of Validator.Start
               "decision of the running instance (height = duty slot, value decodes and passes the role's value check); "
               "per step exactly those objects, each once; messages of another validator, other roles, other heights, "
               "finished or absent duties, pre-/post-consensus messages cause no signature and touch no other runner; "
-              "at most one signing step per duty under a stated controller fact, which is refuted for the runner alone "
-              "(it does not remember that it acted on a decision) and fails for the real controller after instance "
-              "eviction (finding). The model is tied to the code by diffing class, signing calls, partial-signature "
-              "broadcasts and runner state after every input.")
+              "at most one signing step per duty under a stated controller fact (C03_at_most_once_partial); without it the "
+              "clause is refuted for the runner as it is in the tree (it does not remember that it acted on a decision; "
+              "the real controller breaks the fact after instance eviction: known finding F-resign) and proved, for every "
+              "controller behaviour, for the repaired runner (C03_at_most_once_repaired); which variant is extracted and "
+              "compared is read from the source on every run (coq/Gen/RunnerConsts.v). The model is tied to the code by "
+              "diffing class, signing calls, partial-signature broadcasts and runner state after every input.")
 LEVEL_NOTE = ("Trusted: Coq kernel + vm_compute, extraction, OCaml/Go drivers, the reconstruction of the controller's answer "
               "around the real call, the abstraction of roots and values to integers. The consensus instance itself is C01/C02/C06. "
-              "'At most once per decided object' is only partial (C03_at_most_once_partial); the full clause is refuted and "
-              "reproduces on the real code (known finding F-resign).")
+              "'At most once per decided object' is only partial on the unchanged tree (C03_at_most_once_partial); the full "
+              "clause is refuted there and reproduces on the real code (known finding F-resign); it is a theorem once "
+              "work/fix-C03-resign.diff is in the tree.")
